@@ -10,7 +10,7 @@ E == Tr[l]
 Class(res) == IF res \in {"noop", "ok", "oktime"} THEN "nil" ELSE IF res = "revoked" THEN "revoked" ELSE "error"
 
 TReset == /\ E.ev = "reset" /\ rev' = <<>>
-          /\ wit' = [w \in W |-> [issued |-> FALSE, idx |-> 0, o |-> 0, good |-> TRUE]]
+          /\ wit' = [w \in W |-> [issued |-> FALSE, idx |-> 0, o |-> 0, good |-> TRUE, up |-> None]]
           /\ upd' = [k \in U |-> [made |-> FALSE, first |-> 0, last |-> 0, o |-> 0, memo |-> None]]
           /\ tobj' = [x \in DOMAIN tobj |-> 0] /\ nsp' = 0
           /\ nstep' = 0 /\ last' = NoResult
@@ -26,7 +26,7 @@ TDiscard == /\ E.ev = "discard" /\ upd' = [upd EXCEPT ![E.k].made = FALSE]
             /\ UNCHANGED <<rev, nstep>> /\ last' = NoResult
 TApply == /\ E.ev = "apply" /\ Apply(E.w, E.k)
           /\ Class(last'.res) = E.class
-          /\ wit'[E.w].idx = E.idx /\ tobj'[wit'[E.w].o] = E.t /\ wit'[E.w].good = E.valid
+          /\ wit'[E.w].idx = E.idx /\ tobj'[wit'[E.w].o] = E.t /\ wit'[E.w].good = E.valid /\ wit'[E.w].up = E.up
 TPrepend == /\ E.ev = "prepend" /\ Prepend(E.k, E.g, E.h, E.p)
             /\ Class(last'.res) = E.class
             /\ upd'[E.k].first = E.first /\ upd'[E.k].last = E.last
